@@ -74,8 +74,8 @@ func drawExifCase(r *core.Rng, slotty bool, boundary bool) *exifCase {
 }
 
 type builtCase struct {
-	tiff       gen.Built   // linked TIFF (IFD0 -> Exif, GPS)
-	parts      [3][]byte   // separate TIFF blobs per directory (CR3)
+	tiff       gen.Built // linked TIFF (IFD0 -> Exif, GPS)
+	parts      [3][]byte // separate TIFF blobs per directory (CR3)
 	partsBuilt [3]gen.Built
 }
 
